@@ -381,7 +381,7 @@ pub fn run(ctx: &mut Ctx) {
     hist::dfs(ctx, &mut p, if quick { 8 } else { 11 }, 3, "C08", 12);
     // random: up to 4 clients, all pieces, responses up to 1 MiB, flush
     let mut p = P08::new(4, 6);
-    p.pieces = vec![Piece::Get, Piece::Put, Piece::Head, Piece::Two, Piece::Expect, Piece::Big, Piece::GetExpect];
+    p.pieces = vec![Piece::Get, Piece::Put, Piece::Head, Piece::Two, Piece::Expect, Piece::Big, Piece::GetExpect, Piece::Aligned];
     p.sizes = vec![Size::Small, Size::Medium, Size::Large];
     p.allow_flush = true;
     p.use_path_server_every = 50;
